@@ -2,6 +2,7 @@ package chain_test
 
 import (
 	"bytes"
+	"context"
 	"encoding/binary"
 	"fmt"
 	"math"
@@ -27,6 +28,27 @@ import (
 // Output: `err` or `ok <decoded fields> re=<hex of the re-encoding built from the decoded
 // structured value with the public constructors>`.
 
+// c15VarAuth is a harness-defined auth type with a variable-length payload, so that the auth
+// field of parsed transactions takes every length-prefix width (1, 2 and 3 byte varints).
+type c15VarAuth struct{ payload []byte }
+
+const c15VarAuthID = 1
+
+func (*c15VarAuth) GetTypeID() uint8                      { return c15VarAuthID }
+func (*c15VarAuth) ValidRange(chain.Rules) (int64, int64) { return -1, -1 }
+func (*c15VarAuth) ComputeUnits(chain.Rules) uint64       { return 1 }
+func (*c15VarAuth) Verify(context.Context, []byte) error  { return nil }
+func (*c15VarAuth) Actor() codec.Address                  { return codec.Address{7} }
+func (*c15VarAuth) Sponsor() codec.Address                { return codec.Address{7} }
+func (a *c15VarAuth) Bytes() []byte                       { return append([]byte{c15VarAuthID}, a.payload...) }
+
+func unmarshalC15VarAuth(b []byte) (chain.Auth, error) {
+	if len(b) == 0 || b[0] != c15VarAuthID {
+		return nil, fmt.Errorf("not a var auth")
+	}
+	return &c15VarAuth{payload: append([]byte{}, b[1:]...)}, nil
+}
+
 type c15 struct {
 	r      *verifh.Run
 	parser *chain.TxTypeParser
@@ -37,6 +59,9 @@ func TestVerifC15(t *testing.T) {
 	r := verifh.Start("C15")
 	defer r.Finish()
 	h := &c15{r: r, parser: chaintest.NewTestParser(), seen: map[string]string{}}
+	if err := h.parser.AuthRegistry.Register(&c15VarAuth{}, unmarshalC15VarAuth); err != nil {
+		t.Fatal(err)
+	}
 
 	lines := r.ReplayLines()
 	if lines == nil {
@@ -171,6 +196,15 @@ func (h *c15) checkTx(b []byte, tx *chain.Transaction, re *chain.Transaction) {
 	h.seen[k] = string(b)
 }
 
+// checkInner applies the transaction oracle to transactions parsed inside a block / batch.
+func (h *c15) checkInner(txs []*chain.Transaction) {
+	for _, tx := range txs {
+		if tx != nil {
+			h.checkTx(tx.Bytes(), tx, rebuildTx(tx))
+		}
+	}
+}
+
 func (h *c15) opTx(l string, b []byte) {
 	tx, err := chain.UnmarshalTx(b, h.parser)
 	if err != nil {
@@ -222,11 +256,7 @@ func (h *c15) opBlock(l string, b []byte) {
 	if !bytes.Equal(blk.GetBytes(), b) || blk.GetID() != utils.ToID(b) {
 		h.r.Violation("block-id-not-hash", "block %x: cached bytes/id are not those of the input", b)
 	}
-	for _, tx := range blk.Txs {
-		if tx.GetID() != utils.ToID(tx.Bytes()) {
-			h.r.Violation("tx-id-not-hash", "tx in block %x", b)
-		}
-	}
+	h.checkInner(blk.Txs)
 }
 
 func (h *c15) opBatch(l string, b []byte) {
@@ -242,6 +272,7 @@ func (h *c15) opBatch(l string, b []byte) {
 	if !bytes.Equal(re, b) {
 		h.r.Violation(h.txClass(txs, "batch-reencode-differs"), "accepted batch %x re-encodes as %x", b, re)
 	}
+	h.checkInner(txs)
 }
 
 func rebuildResult(r *chain.Result) *chain.Result {
@@ -313,6 +344,7 @@ func (h *c15) opXBlock(l string, b []byte) {
 	if !bytes.Equal(reb, b) {
 		h.r.Violation(h.txClass(txs, "xblock-reencode-differs"), "accepted executed block %x re-encodes as %x", b, reb)
 	}
+	h.checkInner(txs)
 	if eb.Block != nil && eb.Block.GetID() != utils.ToID(eb.Block.GetBytes()) {
 		h.r.Violation("block-id-not-hash", "block inside executed block %x", b)
 	}
@@ -457,11 +489,26 @@ func (h *c15) randTx() *chain.Transaction {
 	for i := range actions {
 		actions[i] = h.randAction()
 	}
-	tx, err := chain.NewTransaction(h.randBase(), actions, h.randAuth())
+	var au chain.Auth = h.randAuth()
+	if g.Chance(30) {
+		au = h.randVarAuth()
+	}
+	tx, err := chain.NewTransaction(h.randBase(), actions, au)
 	if err != nil {
 		panic(err)
 	}
 	return tx
+}
+
+// randVarAuth: total auth sizes around the varint boundaries of the length prefix
+func (h *c15) randVarAuth() *c15VarAuth {
+	g := h.rng()
+	sizes := []int{1, 2, 126, 127, 128, 129, 130, 145, 200, 300}
+	n := sizes[g.Intn(len(sizes))]
+	if g.Chance(2) {
+		n = 16382 + g.Intn(5)
+	}
+	return &c15VarAuth{payload: g.Bytes(n - 1)}
 }
 
 func (h *c15) randTxs(max int) []*chain.Transaction {
@@ -691,6 +738,20 @@ func (h *c15) generate() []string {
 	add("tx", (&chain.SerializeTx{Base: base0, Actions: []codec.Bytes{{}}, Auth: au0.Bytes()}).MarshalCanoto())   // empty action entry
 	add("tx", (&chain.SerializeTx{Base: base0, Auth: au0.Bytes()}).MarshalCanoto())                               // no actions
 	add("tx", (&chain.SerializeTx{Base: base0, Actions: []codec.Bytes{a0.Bytes()}, Auth: make([]byte, 300)}).MarshalCanoto()) // oversized auth
+	// auth fields of every length-prefix width (total auth size 1, 2, 126..130, 16382..16386)
+	for _, n := range []int{1, 2, 126, 127, 128, 129, 130, 16382, 16383, 16384, 16385, 16386} {
+		va := &c15VarAuth{payload: make([]byte, n-1)}
+		for i := range va.payload {
+			va.payload[i] = byte(i*7 + n)
+		}
+		vtx, _ := chain.NewTransaction(base0, []chain.Action{a0}, va)
+		add("tx", vtx.Bytes())
+		if n == 128 || n == 16384 {
+			vb, _ := chain.NewStatelessBlock(ids.ID{9}, 5, 6, []*chain.Transaction{good, vtx}, ids.ID{7}, nil)
+			add("block", vb.GetBytes())
+			add("batch", (&chain.BatchedTransactionSerializer{}).Marshal([]*chain.Transaction{vtx, good}))
+		}
+	}
 	add("batch", (&chain.BatchedTransactions{Transactions: []*chain.Transaction{good, nil}}).MarshalCanoto())     // nil tx
 	add("batch", nil)
 	wb, _ := chain.NewStatelessBlock(ids.ID{9}, 5, 6, []*chain.Transaction{good}, ids.ID{7}, &block.Context{PChainHeight: 3})
